@@ -30,7 +30,7 @@ fn check_foreign(items: &[Vec<u8>], utf8: bool, as_name: bool, st: &mut Stats, o
 /// does not match. The statement leaves no room for them: name() and comment() decode the header bytes by the flag.
 fn check_foreign_x(items: &[Vec<u8>], utf8: bool, as_name: bool, alt: u8, st: &mut Stats, order0: u64) {
     let alt_blocks = |name: &[u8], comment: &[u8]| -> Vec<u8> {
-        if alt == 0 {
+        if alt == 0 || alt >= 3 {
             return vec![];
         }
         let blk = |id: u16, of: &[u8], text: &str| {
@@ -52,7 +52,14 @@ fn check_foreign_x(items: &[Vec<u8>], utf8: bool, as_name: bool, alt: u8, st: &m
                 let name = if as_name { it.clone() } else { format!("e{i}").into_bytes() };
                 let comment = if as_name { vec![] } else { it.clone() };
                 let x = alt_blocks(&name, &comment);
-                ESpec { name, comment, utf8, local_extra: x.clone(), central_extra: x, ..Default::default() }
+                // alt 3 / 4: the entry is marked as a directory through its attributes only (DOS directory bit, made by DOS /
+                // made by Unix with a directory mode) - whatever the attributes say, name() decodes the stored bytes
+                let (made_by, ext_attr) = match alt {
+                    3 => (20u16, 0x10u32),
+                    4 => ((3u16 << 8) | 20, (0o040755u32 << 16) | 0x10),
+                    _ => ((3u16 << 8) | 20, 0o100644u32 << 16),
+                };
+                ESpec { name, comment, utf8, local_extra: x.clone(), central_extra: x, made_by, ext_attr, ..Default::default() }
             })
             .collect(),
         comment: items.first().cloned().unwrap_or_default(),
@@ -322,7 +329,7 @@ pub fn run(args: &Args) -> i32 {
     ctx.stats.sample(json!({"kind":"foreign","items":["61e962"],"utf8":false,"as_name":true}));
     // every 2-byte string: 256 archives of 256 names
     // ... plainly, and next to Info-ZIP Unicode Path / Unicode Comment blocks (matching and non-matching CRC) that offer another text
-    let s = par_for(256 * 4 * 3, 1, |t, st| {
+    let s = par_for(256 * 4 * 5, 1, |t, st| {
         let hi = (t % 256) as u8;
         let utf8 = (t / 256) % 2 == 1;
         let as_name = (t / 512) % 2 == 0;
@@ -330,12 +337,12 @@ pub fn run(args: &Args) -> i32 {
         let items: Vec<Vec<u8>> = (0..=255u8).map(|lo| vec![hi, lo]).collect();
         check_foreign_x(&items, utf8, as_name, alt, st, (2 << 30) + ((alt as u64) << 24) + ((hi as u64) << 8));
     });
-    counted += 65536 * 4 * 3;
+    counted += 65536 * 4 * 5;
     ctx.stats.merge(s);
-    ctx.bound("foreign_lengths", json!(if thorough { "1, 2 and 3 bytes exhaustively in both modes as name and comment; 12 long strings" } else { "1 and 2 bytes exhaustively in both modes as name and comment, 3 bytes as UTF-8-mode names; 12 long strings" }));
+    ctx.bound("foreign_lengths", json!(if thorough { "1, 2 and 3 bytes exhaustively in both modes as name and comment; 12 long strings" } else { "1 and 2 bytes exhaustively in both modes as name and comment (also next to Info-ZIP Unicode blocks and with directory attributes), 3 bytes as UTF-8-mode names and comments; 12 long strings" }));
     {
         // every 3-byte string: UTF-8 mode names (quick), all four (mode, position) combinations (thorough)
-        let combos: &[(bool, bool)] = if thorough { &[(true, true), (true, false), (false, true), (false, false)] } else { &[(true, true)] };
+        let combos: &[(bool, bool)] = if thorough { &[(true, true), (true, false), (false, true), (false, false)] } else { &[(true, true), (true, false)] };
         for &(utf8, as_name) in combos {
             let s = par_for(65536, 16, |t, st| {
                 let items: Vec<Vec<u8>> = (0..=255u8).map(|lo| vec![(t >> 8) as u8, t as u8, lo]).collect();
